@@ -370,7 +370,13 @@ static void k_ecdsa(Tape &t)
 	const char *dc;
 	draw_scalar(t, c.order, d.b, denc, &dc);
 	Bytes hash = t.filled(h.len);
-	if (t.u8() % 8 == 0) std::fill(hash.begin(), hash.end(), 0xFF);
+	{
+		// edge values of the hash: all ones, all zeros (e = 0), exactly the group order (e = 0 mod n)
+		unsigned hv = t.u8() % 16;
+		if (hv == 1) std::fill(hash.begin(), hash.end(), 0xFF);
+		else if (hv == 2) std::fill(hash.begin(), hash.end(), 0x00);
+		else if (hv == 3 && hash.size() * 8 >= (size_t)BN_num_bits(c.order) && BN_num_bits(c.order) % 8 == 0) { Bytes ob = bn2b(c.order, (size_t)BN_num_bytes(c.order)); std::copy(ob.begin(), ob.end(), hash.begin()); }
+	}
 	br_ec_private_key sk = { c.id, denc.data(), denc.size() };
 	PT Q(c);
 	EC_POINT_mul(c.grp, Q.p, d.b, nullptr, nullptr, bnctx);
